@@ -155,6 +155,19 @@ def run(ctx):
         berp = ppm.BER_analizer("counter", Tx=bits, Rx=binary_sequence(rxb))
         events.append({"kind": "ber", "k": k, "n": n, "count": int(round(float(berp) * n)), "exact": bool(abs(float(berp) * n - round(float(berp) * n)) < 1e-6)})
         meta.append(("ber", "ppm", "list"))
+    # the counter on two separately generated copies of the same pseudo-random pattern, k bits of one of them flipped in place
+    for it in range(12 if T else 4):
+        n = [96, 127, 64, 200][it % 4]
+        tx, rx = PRBS(7, n, seed=11 + it), PRBS(7, n, seed=11 + it)
+        k = [5, 1, 0, 17][it % 4]
+        for j in rnd.sample(range(n), k):
+            rx.data[j] ^= 1
+        for nm, fn in (("ook", ook.BER_analizer), ("ppm", ppm.BER_analizer)):
+            with deadline(60):
+                b_ = float(fn("counter", Tx=tx, Rx=rx))
+            events.append({"kind": "ber", "k": k, "n": n, "count": int(round(b_ * n)), "exact": bool(abs(b_ * n - round(b_ * n)) < 1e-6)})
+            meta.append(("ber", nm, "regenerated-pattern"))
+        ctx.case(("ber-regenerated", k > 0))
     for it in range(56 if T else 14):
         M = [2, 4, 8, 16, 256, 64, 512][it % 7]          # orders beyond one byte of symbol value included
         sps = rnd.choice([8, 16]) if it % 3 else 4
